@@ -481,10 +481,13 @@ def c02(tier, seed):
         raise ToolError(f"ShmSeg violates {r.violated} under SC: the specification itself is broken")
     # MC: RA with the extracted programs (+ cover for the O2 replay)
     bra, r, _, _ = cover(rep, "c02_ra1", cf["ra1"], wprog, rprog, invariants=("NoTorn", "NoTornCache", "Monotone"))
+    pending = None
     if r.violated:
         res = run.replay(bra, True, f"TLC counterexample to {r.violated} under release/acquire with the code's orderings {wprog} / {rprog}, replayed on the real snapshot() with the stale values served")
         if not res["violations"]:
-            raise ToolError(f"model violates {r.violated} under RA but the counterexample does not reproduce on the real code: {res['drifts'][:1]}")
+            # not a verdict by itself; the other explorations of the real code still run, and only if none of them
+            # observes a violation either is this reported (as a tool error: model and code disagree)
+            pending = f"model violates {r.violated} under RA but the counterexample does not reproduce on the real code: {res['drifts'][:1]}"
     else:
         run.replay(bra, True, "RA cover", limit=12000 if tier == "quick" else None)
         if tier == "thorough":
@@ -513,6 +516,8 @@ def c02(tier, seed):
     rep.notes.append(f"wrap: {[(c['mode'], c['publications_in_between'], c['result']) for c in res['cases']]}")
     for b in glob_samples(cf, rep):
         pass
+    if pending and not rep.violations:
+        raise ToolError(pending)
     return run.finish()
 
 
